@@ -1934,18 +1934,11 @@ class Field(
         >>> d = f.get_domain()
 
         """
-        domain = self._Domain.fromconstructs(self.constructs)
-
-        # Set climatological time axes for the domain
-        climatological_time_axes = self.climatological_time_axes()
-        if climatological_time_axes:
-            coordinates = self.coordinates()
-            for key, c in coordinates.items():
-                axes = self.get_data_axes(key, default=())
-                if len(axes) == 1 and axes[0] in climatological_time_axes:
-                    c.set_climatology(True)
-
-        return domain
+        # The domain is a view of the field's own metadata constructs,
+        # which must not be changed by asking for it. Coordinate
+        # constructs for climatological time axes are flagged as such
+        # when they, or the cell methods, are set on the field.
+        return self._Domain.fromconstructs(self.constructs)
 
     def get_filenames(self):
         """Return the names of the files containing the data.
